@@ -114,7 +114,7 @@ M = [
 ]
 
 def sh(cmd, cwd=None, timeout=3600):
-    r = subprocess.run(cmd, cwd=cwd, env=ENV, stdout=subprocess.PIPE, stderr=subprocess.STDOUT, text=True, timeout=timeout)
+    r = subprocess.run(cmd, cwd=cwd, env=ENV, stdout=subprocess.PIPE, stderr=subprocess.STDOUT, text=True, errors="replace", timeout=timeout)
     return r.returncode, r.stdout
 
 def run_one(m, tier, skip_tests):
@@ -138,7 +138,7 @@ def run_one(m, tier, skip_tests):
             tests = "tests-pass" if rc == 0 else "tests-FAIL"
         t0 = time.time()
         env = dict(ENV, VERIF_REPO=repo)
-        r = subprocess.run(["/verif/check", prop, tier], cwd="/verif", env=env, stdout=subprocess.PIPE, stderr=subprocess.STDOUT, text=True)
+        r = subprocess.run(["/verif/check", prop, tier], cwd="/verif", env=env, stdout=subprocess.PIPE, stderr=subprocess.STDOUT, text=True, errors="replace")
         rc, out = r.returncode, r.stdout
         caught = rc == 1 and "VIOLATION property=%s" % prop in out
         first = [l for l in out.splitlines() if l.startswith("VIOLATION") or l.startswith("  ")][:2]
